@@ -66,6 +66,10 @@ type GroupCoordinator struct {
 
 type CoordinatorConfig struct {
 	CleanupInterval time.Duration
+	// OwnsGroup, when set, reports whether this broker currently holds the coordination
+	// lease of a group. The cleanup loop leaves groups it does not own alone and drops
+	// their cached state: the lease holder's image in the metadata store is authoritative.
+	OwnsGroup func(groupID string) bool
 }
 
 var defaultCoordinatorConfig = CoordinatorConfig{
@@ -102,6 +106,9 @@ func NewGroupCoordinator(store metadata.Store, broker protocol.MetadataBroker, c
 	config := defaultCoordinatorConfig
 	if cfg != nil && cfg.CleanupInterval > 0 {
 		config.CleanupInterval = cfg.CleanupInterval
+	}
+	if cfg != nil {
+		config.OwnsGroup = cfg.OwnsGroup
 	}
 	c := &GroupCoordinator{
 		store:  store,
@@ -549,6 +556,13 @@ func (c *GroupCoordinator) DeleteGroups(ctx context.Context, req *kmsg.DeleteGro
 		resp.Groups = append(resp.Groups, result)
 	}
 	return resp, nil
+}
+
+// DropGroupState forgets the cached state of a group; the next request loads it from
+// the metadata store. Called when this broker newly acquires the group's coordination
+// lease: another broker may have coordinated the group since it was cached.
+func (c *GroupCoordinator) DropGroupState(groupID string) {
+	c.deleteGroupState(groupID)
 }
 
 func (c *GroupCoordinator) deleteGroupState(groupID string) {
@@ -1054,6 +1068,12 @@ func (c *GroupCoordinator) cleanupGroups() {
 	now := time.Now()
 	ctx := context.Background()
 	for groupID, state := range c.groups {
+		if c.config.OwnsGroup != nil && !c.config.OwnsGroup(groupID) {
+			// another broker coordinates this group now: never expire members of, or
+			// persist, a cached copy
+			delete(c.groups, groupID)
+			continue
+		}
 		removed := state.removeExpiredMembers(now)
 		lostDuringRebalance := state.dropRebalanceLaggers(now)
 
